@@ -475,10 +475,9 @@ Definition rename_pending_change (s : st) (op np : path) (i : N) : res st :=
       add_entry s None (Some np) i (Some (mkE i par base (e_kind old_ie) (e_data old_ie) (e_exec old_ie)))
   end.
 
-(* CommitHandler._rename_item + record_rename.  [stale i p]: the text of the renamed entry is fetched with
-   rev_store.get_file_lines(ie.revision, old_path), i.e. by PATH in the revision that last changed the entry;
-   when a directory above it was renamed since, that path does not exist there: NoSuchFile *)
-Definition rename_item (stale : N -> path -> bool) (s : st) (op np : path) : res st :=
+(* CommitHandler._rename_item + record_rename (the text of the renamed entry is read from the basis
+   revision under its basis path, which exists) *)
+Definition rename_item (s : st) (op np : path) : res st :=
   let existing := match aget bytes_eqb (new_ids s) op with
                   | Some i => Some i
                   | None => aget bytes_eqb (mod_ids s) op
@@ -505,17 +504,16 @@ Definition rename_item (stale : N -> path -> bool) (s : st) (op np : path) : res
               do s <- add_entry s (Some op) (Some np) i (Some nie);
               let s := set_mod_ids s (aset bytes_eqb (mod_ids s) np i) in
               let s := set_deleted s (sdel (deleted s) np) in
-              let s := match e_kind nie with KDir => set_dirents s (aset bytes_eqb (dirents s) np nie) | _ => s end in
-              if stale i op then Fail "NoSuchFile" else Ok s
+              Ok (match e_kind nie with KDir => set_dirents s (aset bytes_eqb (dirents s) np nie) | _ => s end)
           end
       end
   end.
 
-Definition handle (stale : N -> path -> bool) (s : st) (c : fcmd) : res st :=
+Definition handle (s : st) (c : fcmd) : res st :=
   match c with
   | CM p m d => modify_item s p m d
   | CD p => delete_item s p
-  | CR a b => rename_item stale s a b
+  | CR a b => rename_item s a b
   end.
 
 (* ---- Inventory.apply_delta / CHKInventory.create_by_apply_delta (environment) ---- *)
@@ -586,8 +584,8 @@ Definition final_delta (s : st) : res (list dentry) :=
   prune_loop 64 s (map snd (delta s)) (maybe_empty s).
 
 (* one commit: CommitHandler.process = pre_process_files; the file commands; post_process_files *)
-Definition import_commit (stale : N -> path -> bool) (b : inv) (fr : N) (cmds : list fcmd) : res (inv * N) :=
-  do s <- fold_left (fun rs c => do s <- rs; handle stale s c) cmds (Ok (mkSt b fr [] [] [] [] [] []));
+Definition import_commit (b : inv) (fr : N) (cmds : list fcmd) : res (inv * N) :=
+  do s <- fold_left (fun rs c => do s <- rs; handle s c) cmds (Ok (mkSt b fr [] [] [] [] [] []));
   do dl <- final_delta s;
   do v <- apply_delta b dl;
   Ok (v, fresh s).
@@ -596,5 +594,5 @@ Definition import_commit (stale : N -> path -> bool) (b : inv) (fr : N) (cmds : 
 Definition roundtrip_tree (plain : bool) (dst_basis : inv) (fr : N) (old new : inv) (mpaths : list path)
   : res (list titem) :=
   let '(cmds, mods) := filecmds plain old new mpaths [] in
-  do r <- import_commit (fun _ _ => false) dst_basis fr (cmds ++ mods);
+  do r <- import_commit dst_basis fr (cmds ++ mods);
   Ok (tree_of (fst r)).
